@@ -34,7 +34,8 @@ ASSUMPTIONS = ["language names shorter than 3 characters and upper-case codes ar
 L1, L2 = "French (fr)", "Deutsch (de)"
 SURVEY_COLS = ["label", "hint", "guidance_hint", "image", "audio", "constraint_message", "required_message", "no_app_error_string"]
 CHOICE_COLS = ["label", "image", "audio"]
-VALID_CODES = ["en", "fr", "es", "de", "sw", "am", "pt", "zh", "ar", "hi", "tlh", "yue", "ceb"]
+VALID_CODES = ["en", "fr", "es", "de", "sw", "am", "pt", "zh", "ar", "hi", "tlh", "yue", "ceb",
+               "aa", "ab", "zh", "zu", "aaa", "aab", "zza", "zzj"]  # the first and last entries of the two subtag tables too
 INVALID_CODES = ["xx", "zzz9", "123", "en-", "e n", "english", "q"]
 
 RX = {
@@ -380,7 +381,7 @@ def run_shard(ctx):
     if bad_lists:
         ctx.ctr("frozen_code_lists_disagree_with_repo_files", len(bad_lists))
     # (a) header subsets
-    variants = [None, L1, L2]
+    variants = [None, L1, L2, "default"]  # the literal suffix ::default names the same language as no suffix at all
     scombos = [()]
     for k in (1, 2, 3):
         scombos += list(itertools.combinations([(c, v) for c in SURVEY_COLS for v in variants], k))
